@@ -137,5 +137,42 @@ func paramObjectProbe() ProbeReport {
 			}
 		}
 	})
+	// 3. variadic constructors (F40): the last parameter is one dependency of slice type and receives the service
+	// registered under that slice type - all of it, as the variadic slice - also next to positional parameters and for
+	// `...any`, where the registered slice would also fit as a single element
+	guard("variadic", func() {
+		c := godi.NewCollection()
+		_ = c.AddSingleton(func() []*poPlugin { return []*poPlugin{{1}, {2}} })
+		_ = c.AddSingleton(func() []any { return []any{1, 2, 3} })
+		_ = c.AddScoped(func() *poSession { return &poSession{7} })
+		type plugHost struct{ ps []*poPlugin }
+		type anyHost struct {
+			s  *poSession
+			xs []any
+		}
+		e1 := c.AddSingleton(func(ps ...*poPlugin) *plugHost { return &plugHost{ps} })
+		e2 := c.AddScoped(func(s *poSession, xs ...any) *anyHost { return &anyHost{s, xs} })
+		if e1 != nil || e2 != nil {
+			bad("variadic: registration refused: %v / %v", e1, e2)
+			return
+		}
+		p, err := c.Build()
+		if err != nil {
+			bad("variadic: Build: %v", firstLine(err.Error()))
+			return
+		}
+		defer p.Close()
+		sc, _ := p.CreateScope(context.Background())
+		h, err := godi.Resolve[*plugHost](sc)
+		if err != nil || len(h.ps) != 2 || h.ps[0].n != 1 || h.ps[1].n != 2 {
+			bad("variadic: func(...*T) with []*T registered: got %+v, %v; want the two registered elements", h, err)
+			return
+		}
+		a, err := godi.Resolve[*anyHost](sc)
+		s, _ := godi.Resolve[*poSession](sc)
+		if err != nil || a.s != s || len(a.xs) != 3 {
+			bad("variadic: func(*S, ...any) with []any registered: got %d variadic arguments (%v), want the 3 registered elements", len(a.xs), err)
+		}
+	})
 	return rep
 }
